@@ -90,7 +90,7 @@ def model_entries(md, thorough, rng):
     if thorough:
         # four ports, two domains, minimal alphabets
         E.append(_entry(md, "u4x2-RAt,B-WAg2,Bg0", "u", 4, 2, [5, 9], [("A", [1]), ("B", [])], [("A", 2), ("B", None)],
-                        [0, 1], [[6], [10]], [[0, 1, 3], [0, 1]], [1, 2, 3], []))
+                        [0, 1], [[6], [10]], [[0, 1], [0, 1]], [1, 2, 3], []))
         E.append(_entry(md, "u4x2-RAt12,At2-WAg2,Ag1", "u", 4, 2, [3], [("A", [1, 2]), ("A", [2])],
                         [("A", 2), ("A", 1)], [0, 1], [[5], [10]], [[0, 2], [0, 6]], [1], []))
         for t in range(12):
@@ -250,7 +250,8 @@ def run(ctx):
             return ctx.tlc("AmMem", stage=stage, cfg_text=_cfg_text(cid, mut, level, [inv]), env=env, workers=1,
                            expect_violation=inv, count=False)
         dot = os.path.join(ctx.tmp, "g_%d" % cid)
-        return ctx.tlc("AmMem", stage=stage, cfg_text=_cfg_text(cid, "", level), env=env, workers=2,
+        # one worker: strict breadth-first order, so that the level bound cuts the same graph in every run
+        return ctx.tlc("AmMem", stage=stage, cfg_text=_cfg_text(cid, "", level), env=env, workers=1,
                        args=("-coverage", "1", "-dump", "dot,actionlabels", dot))
     with ThreadPoolExecutor(8) as ex:
         results = list(ex.map(one, jobs))
